@@ -44,7 +44,7 @@ constexpr bool cat_on(Cat k)
         || (VERIF_AS == 18 && k == OUT) || (VERIF_AS == 7 && (k == STATE || k == RANKS)) || (VERIF_AS == 11 && k == DISTBINS)
         || (VERIF_AS == 2 && (k == DIFF || k == DISTBINS)) || (VERIF_AS == 3 && (k == STATE || k == RANKS))
         || (VERIF_AS == 1 && (k == DIFF || k == SHARE || k == DISTBINS)) || (VERIF_AS == 6 && (k == DIFF || k == DISTBINS))
-        || (VERIF_AS == 10 && k == POS) || (VERIF_AS == 14 && (k == DIFF || k == DISTBINS));
+        || (VERIF_AS == 10 && k == POS) || (VERIF_AS == 14 && (k == DIFF || k == DISTBINS)) || (VERIF_AS == 15 && (k == POS || k == STATE || k == DIFF));
 }
 
 #define VF_STR2(x) #x
@@ -693,6 +693,8 @@ vf::Property const vf::property = {"C06", "", run, nullptr, nullptr};
 vf::Property const vf::property = {"C10", "", run, nullptr, nullptr};
 #elif VERIF_AS == 14
 vf::Property const vf::property = {"C14", "", run, nullptr, nullptr};
+#elif VERIF_AS == 15
+vf::Property const vf::property = {"C15", "", run, nullptr, nullptr};
 #else
 vf::Property const vf::property = {"C20", "", run, nullptr, nullptr};
 #endif
